@@ -38,6 +38,8 @@ type c18Obs struct {
 type c18World struct {
 	f   *flamego.Flame
 	obs c18Obs
+	// keyEscaped: the query names the parameter k as %6B (the same name for every query parser)
+	keyEscaped bool
 }
 
 func c18Build() *c18World {
@@ -74,8 +76,9 @@ type c18Case struct {
 	Absent bool   `json:"absent"`
 	// nested mode: the handler of GET /p/<raw>?k=<raw> serves GET /r/<inner>?k=<inner> on the same
 	// instance (a sub-request) between two reads of its own data, after Warm ordinary requests
-	Inner string `json:"inner_request_text,omitempty"`
-	Warm  int    `json:"earlier_requests,omitempty"`
+	KeyEscaped bool   `json:"parameter_name_percent_escaped_in_the_query,omitempty"`
+	Inner      string `json:"inner_request_text,omitempty"`
+	Warm       int    `json:"earlier_requests,omitempty"`
 }
 
 // c18Nested: request data belongs to its request. After warm ordinary requests, the handler of an outer
@@ -147,7 +150,9 @@ func fbits(f float64) uint64 { return math.Float64bits(f) }
 func c18Query(w *c18World, raw string, absent bool) (bad, kind, class string) {
 	w.obs = c18Obs{}
 	req := newReq("GET", "/q")
-	if !absent {
+	if !absent && w.keyEscaped {
+		req.URL.RawQuery = "z=1&%6B=" + raw
+	} else if !absent {
 		req.URL.RawQuery = "z=1&k=" + raw
 	} else {
 		req.URL.RawQuery = "z=1"
@@ -382,7 +387,7 @@ func c18Run(r *core.Run) {
 		maxLen = 3
 		r.SetBudget(12 * time.Minute)
 	}
-	r.Rule = "engine E: raw query text / bind parameter text / cookie text = absent, empty, EVERY byte string of length <=2 (thorough 3) over all 256 bytes, and a numeric corpus (signs, bases, overflow, 1e999, NaN, blanks) through every accessor with and without a default; cookie values of every byte string of length <=2 (thorough 3) through SetCookie -> Set-Cookie -> client -> Cookie header -> Cookie(); oracle: no panic, presence by url.ParseQuery / http.Request.Cookie, value by strconv (0 on malformed), absent or empty gives the default or zero, cookies read back byte for byte; request data read before and after a sub-request served on the same instance inside the handler (after 0..2 earlier requests) is the request's own; non-trivial = text that is present and non-numeric, or a cookie value containing a byte outside [A-Za-z0-9]"
+	r.Rule = "engine E: raw query text / bind parameter text / cookie text = absent, empty, EVERY byte string of length <=2 (thorough 3) over all 256 bytes, and a numeric corpus (signs, bases, overflow, 1e999, NaN, blanks) through every accessor with and without a default (queries also with the parameter name percent-escaped); cookie values of every byte string of length <=2 (thorough 3) through SetCookie -> Set-Cookie -> client -> Cookie header -> Cookie(); oracle: no panic, presence by url.ParseQuery / http.Request.Cookie, value by strconv (0 on malformed), absent or empty gives the default or zero, cookies read back byte for byte; request data read before and after a sub-request served on the same instance inside the handler (after 0..2 earlier requests) is the request's own; non-trivial = text that is present and non-numeric, or a cookie value containing a byte outside [A-Za-z0-9]"
 	r.Assumptions = []string{"net/url, net/http cookie parsing and strconv are the reference parsers (trusted)", "QueryTrim/QueryUnescape apply their conversion to the default as well; the default used (DEF) is not altered by either", "QueryStrings returns the list as parsed when the key occurs at all (a list holding one empty string is a present list)"}
 	numeric := []string{"0", "1", "-1", "+1", "007", "12345678901234567890", "-9223372036854775808", "9223372036854775807", "9223372036854775808", "0x10", "1e3", "1e999", "-1e999", "NaN", "nan", "Inf", "-inf", " 1", "1 ", "1_000", "1.5", ".5", "5.", "true", "TRUE", "t", "T", "1", "false", "F", "yes", "１", "%31", "%2B1", "+", "-", "1%001"}
 	bytesUpTo := func(n int) int {
@@ -467,6 +472,15 @@ func c18Run(r *core.Run) {
 			s := strAt(i)
 			b, k, c := c18Query(world, s, false)
 			report("query", s, false, b, k, c)
+			if i < bytesUpTo(2) || i%5 == 0 {
+				world.keyEscaped = true
+				b, k, c = c18Query(world, s, false)
+				world.keyEscaped = false
+				if b != "" {
+					k += "/escaped-name"
+				}
+				report("query-escaped-name", s, false, b, k, c)
+			}
 			if i < bytesUpTo(2) || i%3 == 0 {
 				b, k, c = c18Param(world, s)
 				if c != "" || b != "" {
@@ -557,6 +571,9 @@ func c18Replay(raw json.RawMessage) (bool, string) {
 	var bad string
 	switch c.Mode {
 	case "query":
+		bad, _, _ = c18Query(w, s, c.Absent)
+	case "query-escaped-name":
+		w.keyEscaped = true
 		bad, _, _ = c18Query(w, s, c.Absent)
 	case "param":
 		bad, _, _ = c18Param(w, s)
